@@ -252,7 +252,8 @@ class Gen:
         self.budget -= 1
         kinds = ['assign'] * 4 + ['print'] * 3 + ['aug'] * 2 + ['unpack', 'substore', 'if', 'if', 'for', 'for', 'while',
                  'def', 'def', 'class', 'walrus', 'import', 'dictops', 'exprstmt', 'multi', 'swap', 'nestunpack',
-                 'attr', 'lambdadef', 'scopechain', 'bareann']
+                 'attr', 'lambdadef', 'scopechain', 'bareann', 'factory', 'recursion', 'kwcall',
+                 'docstring', 'mapfilter', 'forstar', 'augslice', 'methodstate', 'nestedclass', 'lazygen']
         if self.weights:
             kinds += [k for k, w in self.weights.items() for _ in range(w)]
         if sc.loop_depth:
@@ -493,6 +494,173 @@ class Gen:
                 if prole in ('param', 'local', 'read', 'global', 'nonlocal'):
                     self.emit(cur, f'print({lv - 1}, "after", {x})')
         self.emit(ind, f'print("chain", {x})')
+
+    def s_factory(self, sc, ind, depth):
+        """Closure factory: the inner function outlives the call that created it and keeps private state."""
+        if sc.kind == 'class':
+            return self.s_assign(sc, ind, depth)
+        self.features.add('closure-factory')
+        r = self.r
+        mk, inner, n, acc = self.fresh('mk'), self.fresh('in'), self.fresh('a'), self.fresh('acc')
+        self.emit(ind, f'def {mk}({n}, step={self.int_expr(sc)}):')
+        self.emit(ind + 1, f'{acc} = [{n}]')
+        self.emit(ind + 1, f'def {inner}(x, *more, scale=1):')
+        self.emit(ind + 2, f'nonlocal {n}')
+        self.emit(ind + 2, f'{n} += step')
+        self.emit(ind + 2, f'{acc}.append({n})')
+        self.emit(ind + 2, f'{acc}[4:] = []')
+        self.emit(ind + 2, f'return (x + {n}) * scale + len(more)')
+        self.emit(ind + 1, f'return {inner}, (lambda: list({acc}))')
+        f1, g1 = self.fresh('fn'), self.fresh('gn')
+        self.emit(ind, f'{f1}, {g1} = {mk}({self.int_expr(sc)})')
+        self.emit(ind, f'print({f1}(1), {f1}(2, 9, scale=2), {g1}())')
+        if r.random() < 0.5:
+            f2 = self.fresh('fn')
+            self.emit(ind, f'{f2} = {mk}({self.int_expr(sc)}, step=2)[0]')
+            self.emit(ind, f'print({f2}(0), {f1}(0))')
+
+    def s_recursion(self, sc, ind, depth):
+        if sc.kind == 'class':
+            return self.s_assign(sc, ind, depth)
+        self.features.add('recursion')
+        f = self.fresh('rec')
+        c = self.r.random()
+        if c < 0.5:
+            self.emit(ind, f'def {f}(n, acc=1):')
+            self.emit(ind + 1, 'if n <= 1:')
+            self.emit(ind + 2, 'return acc')
+            self.emit(ind + 1, f'return {f}(n - 1, acc * n % 1000)')
+            self.emit(ind, f'print({f}({self.r.randint(0, 6)}))')
+        else:
+            g = self.fresh('rec')
+            self.emit(ind, f'def {f}(n):')
+            self.emit(ind + 1, f'return n == 0 or {g}(n - 1)')
+            self.emit(ind, f'def {g}(n):')
+            self.emit(ind + 1, f'return n != 0 and {f}(n - 1)')
+            self.emit(ind, f'print({f}({self.r.randint(0, 5)}), {g}({self.r.randint(0, 5)}))')
+
+    def s_kwcall(self, sc, ind, depth):
+        """Definitions called with keywords, defaults overridden, star and double-star expansion."""
+        self.features.add('keyword-calls')
+        f = self.fresh('kf')
+        self.emit(ind, f'def {f}(a, b=2, /, c=3, *rest, d={self.int_expr(sc)}, **kw):')
+        self.emit(ind + 1, 'return (a, b, c, rest, d, sorted(kw.items()))')
+        self.emit(ind, f'print({f}(1), {f}(1, 5, c=6), {f}(1, 2, 3, 4, 5, d=0, z=1))')
+        self.emit(ind, f"print({f}(*[1, 2], **{{'c': 9, 'y': 8}}), {f}(0, d={self.int_expr(sc)}, **{{'a': 'kw-named-like-posonly'}}))")
+
+    def s_docstring(self, sc, ind, depth):
+        self.features.add('docstring')
+        f = self.fresh('df')
+        self.emit(ind, f'def {f}():')
+        self.emit(ind + 1, '"""A docstring\n    over two lines with \'quotes\' and \\ backslash."""')
+        self.emit(ind + 1, "'another string statement'")
+        self.emit(ind + 1, '...')
+        self.emit(ind + 1, 'return 7')
+        self.emit(ind, f'print({f}())')
+
+    def s_mapfilter(self, sc, ind, depth):
+        self.features.add('map-filter-sorted')
+        l = self.list_expr(sc)
+        self.emit(ind, f'print(list(map(lambda q: q * 2, {l})), sorted({l}, key=lambda q: -q)[:3], list(filter(None, {l}))[:3], any(q > 3 for q in {l}))')
+
+    def s_forstar(self, sc, ind, depth):
+        """for loops with starred / nested / attribute / subscript targets."""
+        self.features.add('for-complex-target')
+        c = self.r.random()
+        a, b, d = self.fresh('i'), self.fresh('j'), self.fresh('k')
+        if c < 0.4:
+            self.emit(ind, f'for {a}, *{b} in [(1, 2, 3), (4,), [5, 6]]:')
+            self.emit(ind + 1, f'print({a}, {b})')
+            sc.vars[a] = INT
+        elif c < 0.7:
+            self.emit(ind, f'for ({a}, {b}), {d} in [((1, 2), 3), ((4, 5), 6)]:')
+            self.emit(ind + 1, f'print({a} + {b} + {d})')
+            sc.vars[a] = sc.vars[b] = sc.vars[d] = INT
+        else:
+            box = self.fresh('bx')
+            self.emit(ind, f'{box} = [0, 0]')
+            self.emit(ind, f'for {box}[0], {box}[1] in [(1, 2), (3, 4)]:')
+            self.emit(ind + 1, f'print({box})')
+            self.emit(ind, f'print({box})')
+            sc.vars[box] = LIST
+
+    def s_augslice(self, sc, ind, depth):
+        ls = [n for n in sc.visible(LIST)]
+        if not ls:
+            return self.s_assign(sc, ind, depth)
+        self.features.add('augassign-slice')
+        l = self.r.choice(ls)
+        self.emit(ind, f'{l}[1:3] += [{self.int_expr(sc)}]')
+        self.emit(ind, f'{l}[::2] = [0] * len({l}[::2])')
+        self.emit(ind, f'{l}[:0] *= 2')
+        self.emit(ind, f'{l}[5:] = []')
+        self.emit(ind, f'{l}.append(1)')
+        self.emit(ind, f'print({l})')
+
+    def s_methodstate(self, sc, ind, depth):
+        """A class whose methods keep state, loop, return early and call each other."""
+        if sc.kind == 'class':
+            return self.s_assign(sc, ind, depth)
+        self.features.add('stateful-methods')
+        K, o = self.fresh('St'), self.fresh('so')
+        self.emit(ind, f'class {K}:')
+        self.emit(ind + 1, 'count = 0')
+        self.emit(ind + 1, 'def __init__(self, start=0):')
+        self.emit(ind + 2, 'self.items = [start]')
+        self.emit(ind + 2, f'{K}.count += 1')
+        self.emit(ind + 1, 'def push(self, *vals):')
+        self.emit(ind + 2, 'for v in vals:')
+        self.emit(ind + 3, 'if v < 0:')
+        self.emit(ind + 4, 'return self')
+        self.emit(ind + 3, 'self.items.append(v)')
+        self.emit(ind + 3, 'self.items[5:] = []')
+        self.emit(ind + 2, 'else:')
+        self.emit(ind + 3, "self.last = 'all'")
+        self.emit(ind + 2, 'return self')
+        self.emit(ind + 1, 'def total(self):')
+        self.emit(ind + 2, 't = 0')
+        self.emit(ind + 2, 'i = 0')
+        self.emit(ind + 2, 'while i < len(self.items):')
+        self.emit(ind + 3, 't += self.items[i]')
+        self.emit(ind + 3, 'i += 1')
+        self.emit(ind + 3, 'if t > 50:')
+        self.emit(ind + 4, 'break')
+        self.emit(ind + 2, 'return t')
+        self.emit(ind + 1, 'def __repr__(self):')
+        self.emit(ind + 2, f"return '{K}(%r)' % (self.items,)")
+        self.emit(ind, f'{o} = {K}({self.int_expr(sc)}).push(1, {self.int_expr(sc)}).push(2, -1, 3)')
+        self.emit(ind, f"print({o}, {o}.total(), {K}.count, getattr({o}, 'last', None))")
+
+    def s_nestedclass(self, sc, ind, depth):
+        if sc.kind == 'class':
+            return self.s_assign(sc, ind, depth)
+        self.features.add('nested-class')
+        O = self.fresh('Out')
+        self.emit(ind, f'class {O}:')
+        self.emit(ind + 1, f'base = {self.int_expr(Scope("class", sc))}')
+        self.emit(ind + 1, 'class In:')
+        self.emit(ind + 2, 'def get(self, o):')
+        self.emit(ind + 3, 'return o.base + 1')
+        self.emit(ind + 2, 'class Deep:')
+        self.emit(ind + 3, "tag = 'deep'")
+        self.emit(ind + 1, 'def make(self):')
+        self.emit(ind + 2, f'return self.In().get(self), {O}.In.Deep.tag')
+        self.emit(ind, f'print({O}().make())')
+
+    def s_lazygen(self, sc, ind, depth):
+        """A generator expression created before, and consumed after, a rebinding of what it closes over."""
+        if sc.kind == 'class':
+            return self.s_assign(sc, ind, depth)
+        self.features.add('lazy-generator')
+        g, n, src = self.fresh('ge'), self.fresh('v'), self.fresh('ls')
+        self.emit(ind, f'{n} = {self.int_expr(sc)}')
+        self.emit(ind, f'{src} = [1, 2, 3]')
+        self.emit(ind, f'{g} = (q + {n} for q in {src})')
+        self.emit(ind, f'{n} = {n} + 10')
+        self.emit(ind, f'{src} = [7]')
+        self.emit(ind, f'print(next({g}), list({g}), {n})')
+        sc.vars[n] = INT
+        sc.vars[src] = LIST
 
     def s_if(self, sc, ind, depth):
         self.features.add('if')
